@@ -1,7 +1,59 @@
-(* placeholder while the C16 theorems for the sequence containers are being written (replaced below) *)
-From Coq Require Import List NArith.
-From FV Require Import Common.EventLog Seq.ListModel.
+(* C16 (sequence containers): each element is destroyed exactly once; each allocation is returned exactly once.
+   Statements only; proofs are in coq/Seq/{LogProofs,Footprint,VectorLog,StackListLog,DynArrayLog,SmallVectorLog}.v.
+   The models (coq/Seq/*Model.v) emit the lifetime/allocation events of every operation; the harness
+   (comp/seq/harness.cpp) prints the same events from the real containers and they are compared line by line.
+   [wf_closed] (coq/Common/EventLog.v): construction only into dead slots of a live block (or inline storage),
+   use/destroy only of live objects, every block released exactly once (deallocate with the allocation size),
+   nothing live or allocated at the end.  Scripts use the container variables 0..2 ([*regs_ok]) and stay within
+   the preconditions the source does not check ([*ref_ok], see Properties_C13.v); the log is the one of the whole
+   script followed by the destructors of all container variables. *)
+From Coq Require Import List NArith Arith Bool.
+From FV Require Import Common.EventLog Seq.SlotModel Seq.VectorModel Seq.VectorProofs Seq.VectorLog
+  Seq.StackModel Seq.ListModel Seq.DynArrayModel Seq.DynStackListProofs Seq.StackListLog Seq.DynArrayLog.
 Import ListNotations.
-Theorem C16_seq_list_empty_log_wf : wf_closed [] = true.
+
+Theorem C16_vector_log_wf : forall esz ops, ref_ok rs0 ops -> Forall regs_ok ops ->
+  exists st outs e fin, vrun esz vst0 ops = Ok (st, outs, e) /\ vfinish st = Ok fin /\ wf_closed (e ++ fin) = true.
+Proof. exact vector_log_wf. Qed.
+Print Assumptions C16_vector_log_wf.
+Example C16_vector_log_wf_ex :
+  let ops := [VPush 0 1%N; VPush 0 2%N; VPush 0 3%N; VResize 0 7 0%N; VAssign 1 0; VPop 1; VMoveAssign 2 1; VSwap 0 2; VCopyCtor 1 0; VClear 2] in
+  ref_ok rs0 ops /\ Forall regs_ok ops /\
+  exists st outs e fin, vrun 24%N vst0 ops = Ok (st, outs, e) /\ vfinish st = Ok fin /\ wf_closed (e ++ fin) = true.
+Proof. vm_compute. split; [repeat split; discriminate|]. split; [repeat constructor|]. do 4 eexists. repeat split. Qed.
+(* D08 as it was (relocation bound _capacity): the log of push x3; resize(7) is rejected *)
+Example C16_vector_d08_log_rejected :
+  wf_log [EAlloc 1 48; EConstruct (1, 0); EConstruct (1, 1); EAlloc 2 144; EUse (1, 0); EConstruct (2, 0); EUse (1, 1); EConstruct (2, 1);
+          EDestroy (1, 0); EDestroy (1, 1); EFree 1; EConstruct (2, 2);
+          EAlloc 3 336; EUse (2, 0); EConstruct (3, 0); EUse (2, 1); EConstruct (3, 1); EUse (2, 2); EConstruct (3, 2); EUse (2, 3)] = false.
 Proof. reflexivity. Qed.
-Print Assumptions C16_seq_list_empty_log_wf.
+
+Theorem C16_stack_log_wf : forall esz ops, kref_ok [] ops ->
+  exists st outs e fin, krun esz (stk_empty, 1) ops = Ok (st, outs, e) /\ kfinish st = Ok fin /\ wf_closed (e ++ fin) = true.
+Proof. exact stack_log_wf. Qed.
+Print Assumptions C16_stack_log_wf.
+Example C16_stack_log_wf_ex :
+  let ops := [KPush 1%N; KEmplace 2%N; KPush 3%N; KPop; KTop] in
+  kref_ok [] ops /\ exists st outs e fin, krun 8%N (stk_empty, 1) ops = Ok (st, outs, e) /\ kfinish st = Ok fin /\ wf_closed (e ++ fin) = true.
+Proof. vm_compute. split; [repeat split; discriminate|]. do 4 eexists. repeat split. Qed.
+
+Theorem C16_list_log_wf : forall isz ops, lref_ok [] ops ->
+  exists st outs e, lrun isz (fl_empty, 1) ops = Ok (st, outs, e) /\ wf_closed (e ++ lfinish isz st) = true.
+Proof. exact list_log_wf. Qed.
+Print Assumptions C16_list_log_wf.
+(* destroyed while non-empty: the destructor drains the list (D14 fixed) *)
+Example C16_list_log_wf_ex :
+  let ops := [LEmplaceBack 1%N; LEmplaceBack 2%N; LEmplaceBack 3%N; LPopFront] in
+  lref_ok [] ops /\ exists st outs e, lrun 48%N (fl_empty, 1) ops = Ok (st, outs, e) /\ wf_closed (e ++ lfinish 48%N st) = true /\
+    lfinish 48%N st = [EDestroy (2, 0); EDealloc 2 48; EDestroy (3, 0); EDealloc 3 48].
+Proof. vm_compute. split; [repeat split; discriminate|]. do 3 eexists. repeat split. Qed.
+
+Theorem C16_dyn_array_log_wf : forall esz ops, dref_ok rs0 ops -> Forall dregs_ok ops ->
+  exists st outs e fin, drun esz dst0 ops = Ok (st, outs, e) /\ dfinish esz st = Ok fin /\ wf_closed (e ++ fin) = true.
+Proof. exact dyn_array_log_wf. Qed.
+Print Assumptions C16_dyn_array_log_wf.
+Example C16_dyn_array_log_wf_ex :
+  let ops := [DMake 0 3; DSet 0 1 5%N; DAssign 1 0; DMake 2 0; DSwap 0 2; DMoveAssign 1 2; DCopyCtor 2 1; DMoveCtor 0 2] in
+  dref_ok rs0 ops /\ Forall dregs_ok ops /\
+  exists st outs e fin, drun 24%N dst0 ops = Ok (st, outs, e) /\ dfinish 24%N st = Ok fin /\ wf_closed (e ++ fin) = true.
+Proof. vm_compute. split; [repeat split; repeat constructor|]. split; [repeat constructor|]. do 4 eexists. repeat split. Qed.
